@@ -24,7 +24,8 @@ def run(ctx):
     # ------------------------------------------------------------------- R1
     ctx.rule("C12.R1", "link targets: os.readlink is called only inside readlink(), "
              "which cuts at the first NUL and drops a stale ' (deleted)' suffix; "
-             "exe()/cwd() go through _readlink(..., fallback='')", floor=4)
+             "exe()/cwd() go through _readlink(..., fallback=''), which takes the "
+             "liveness path for both ENOENT and ESRCH", floor=5)
     sites = []
     for fi in repo.all_funcs(pm):
         for c in calls_in(fi.node):
@@ -70,6 +71,50 @@ def run(ctx):
             ctx.fail("C12.R1", q, f.file, f.node.lineno, f.qual,
                      f"{leaf}() no longer reads <pid>/{leaf} through _readlink(..., "
                      f"fallback='')")
+
+    # withheld link: ENOENT *and* ESRCH (psutil issue #503: readlink on <pid>/exe
+    # races to ESRCH) take the liveness path, not the error translator
+    from ..core.astutil import handler_catches
+    rlm = repo.func(pm, "Process._readlink")
+    rcfg = A.cfg(rlm)
+    rcalls = [c for c in calls_in(rlm.node) if dotted(c.func) == "readlink"]
+    ctx.require(rcalls, "_readlink no longer calls readlink()")
+    trys = [t_ for t_ in ast.walk(rlm.node) if isinstance(t_, ast.Try)
+            and any(rcalls[0] is x for b in t_.body for x in ast.walk(b))]
+    probs = []
+    if not trys:
+        probs.append("readlink() is not inside a try")
+    else:
+        for cls_ in ("FileNotFoundError", "ProcessLookupError"):
+            hs = [h for h in trys[-1].handlers if handler_catches(h, [cls_])]
+            if not hs:
+                probs.append(f"{cls_} ({'ENOENT' if cls_[0] == 'F' else 'ESRCH'}) from "
+                             f"readlink() is not caught: a live process whose link the "
+                             f"kernel withholds is reported as NoSuchProcess instead of ''")
+                continue
+            h = hs[0]
+            rets = [n for n in rcfg.nodes if n.kind == "return" and n.stmt is not None
+                    and any(n.stmt is x for b in h.body for x in ast.walk(b))]
+            okret = False
+            for r in rets:
+                gs = [(norm_stmt(e), pol) for e, pol, _ in rcfg.guards(r)]
+                if any("lexists" in g and pol is True for g, pol in gs):
+                    zc = [n for c in calls_in(rlm.node) if isinstance(c.func, ast.Attribute)
+                          and c.func.attr == "_raise_if_zombie" for n in rcfg.owners(c)]
+                    if any(rcfg.dominates(z, r) for z in zc):
+                        okret = True
+            if not okret:
+                probs.append(f"after {cls_} the fallback is not returned under "
+                             f"lexists(<pid dir>) after the zombie check")
+            if not any(isinstance(x, ast.Raise) and x.exc is None for b in h.body
+                       for x in ast.walk(b)):
+                probs.append(f"{cls_} is not re-raised when the process is gone")
+    if probs:
+        ctx.fail("C12.R1", "_readlink:withheld", rlm.file, rlm.node.lineno, rlm.qual,
+                 "; ".join(sorted(set(probs))))
+    else:
+        ctx.ok("C12.R1", "_readlink:withheld",
+               sample="ENOENT|ESRCH -> lexists(pid dir): zombie check, fallback; else re-raise")
 
     # ------------------------------------------------------------------- R2
     ctx.rule("C12.R2", "cmdline: NUL-separated when the data ends with NUL (else "
